@@ -19,7 +19,11 @@ from guppylang_internals.definition.value import (
     CompiledCallableDef,
 )
 from guppylang_internals.diagnostic import Error, Note
-from guppylang_internals.error import GuppyError, InternalGuppyError
+from guppylang_internals.error import (
+    GuppyError,
+    GuppyTypeInferenceError,
+    InternalGuppyError,
+)
 from guppylang_internals.span import Span, to_span
 from guppylang_internals.tys.printing import signature_to_str
 from guppylang_internals.tys.subst import Inst, Subst
@@ -96,12 +100,22 @@ class OverloadedFunctionDef(CompiledCallableDef, CallableDef):
         self, args: list[ast.expr], node: AstNode, ctx: "Context"
     ) -> tuple[ast.expr, Type]:
         available_sigs: list[FunctionType] = []
+        inference_error: GuppyTypeInferenceError | None = None
         for def_id in self.func_ids:
             defn = ctx.globals[def_id]
             assert isinstance(defn, CallableDef)
             available_sigs.append(defn.ty)
-            with suppress(GuppyError):
+            try:
                 return defn.synthesize_call(_copy_args(args), node, ctx)
+            except GuppyTypeInferenceError as err:
+                inference_error = inference_error or err
+            except GuppyError:
+                pass
+        # If a variant only failed because its type arguments couldn't be inferred, report
+        # that, so that an enclosing call can try again with an expected type like it does
+        # for a direct call of that variant
+        if inference_error is not None:
+            raise inference_error
         return self._call_error(args, node, ctx, available_sigs)
 
     def _call_error(
